@@ -1,3 +1,46 @@
-import Driver.Util
-/-! stub: replaced by the owner of this driver -/
-def main : IO Unit := Drv.mainLoop (fun _ => "bad-op")
+import Invoke.Model.Levels
+import Invoke.Model.Env
+import Driver.ValCodec
+/-! drv_val: line-protocol driver over `Model/Val.lean` + `Model/Levels.lean` (C03).
+    merge <base> <updates>            -> ok <tree> | err:AmbiguousMergeError          (`merge_dicts`)
+    view <prefix> <environ> <defaults> <collection> <system> <user> <project> <runtime> <overrides> <modsAtEnvLoad> <modsFinal>
+         -> ok <view tree> <env-level tree> tc=<0|1> | err:<ExceptionClass>
+       (the env level is computed by `loadEnv` from the merged view at the time `load_shell_env` ran)
+    suffix <s1,s2,…>                  -> the suffix read when exactly these candidate files exist | none -/
+open Inv Drv Drv.VC
+
+def levelsOf (d c s u p r o m : KVs) : Levels := fun l => match l with
+  | .defaults => d | .collection => c | .system => s | .user => u | .project => p
+  | .env => [] | .runtime => r | .overrides => o | .modifications => m
+
+def fsOf (present : List String) (s : String) : Option KVs := if present.contains s then some [] else none
+
+def step (line : String) : String :=
+  match line.splitOn " " with
+  | ["merge", a, b] =>
+    match decTree a, decTree b with
+    | some x, some y => match mergeKVs x y with
+      | .ok m => "ok " ++ encTree m
+      | .error e => "err:" ++ errName e
+    | _, _ => "bad-tree"
+  | ["view", pre, env, d, c, s, u, p, r, o, m1, m2] =>
+    match decTree d, decTree c, decTree s, decTree u, decTree p, decTree r, decTree o, decTree m1, decTree m2 with
+    | some d, some c, some s, some u, some p, some r, some o, some m1, some m2 =>
+      let L := levelsOf d c s u p r o m1
+      match viewE L with
+      | .error e => "err:" ++ errName e
+      | .ok v => match loadEnv (decStr pre) (decEnviron env) v with
+        | .error e => "err:" ++ errName e
+        | .ok ev =>
+          let L' := (L.set .env ev).set .modifications m2
+          match viewE L' with
+          | .error e => "err:" ++ errName e
+          | .ok v' => "ok " ++ encTree v' ++ " " ++ encTree ev ++ " tc=" ++ (if typeConsistentB L' then "1" else "0")
+    | _, _, _, _, _, _, _, _, _ => "bad-tree"
+  | ["suffix", present] =>
+    match chosenFile (fsOf (if present == "-" then [] else present.splitOn ",")) with
+    | some (s, _) => s
+    | none => "none"
+  | _ => "bad-op"
+
+def main : IO Unit := mainLoop step
